@@ -118,12 +118,12 @@ PROPS = {
              "examined on the implementation.",
              "models x new shapes (up/down, per-axis) x linear/nearest x scalar/per-axis sigma x unit changes", props="props/C16.v",
              api_corr="meta", api_n=(20, 120)),
-    "C17": P([], [], "other",
+    "C17": P(["Effects"], [], "proof",
              "Frame property of a functional model is by construction; the content is observed: random API histories on shared, copied "
              "and deep-copied objects with inputs as list/tuple/F-order/strided/float32, interleaved 2D/3D use and raising calls; "
              "arguments compared before/after, identical calls compared bit-for-bit.",
              "histories of 3..7 operations from {solve, list solve, solve with a bad source, other dimension, call, raytrace, "
-             "representation change} on {object, re-built object, copy, deepcopy}", oracle_n=(40, 300)),
+             "representation change} on {object, re-built object, copy, deepcopy}", oracle_n=(40, 300), props="props/C17.v"),
     "C18": P(GS + ["Interp2d", "Interp3d"], SOLVER2 + INTERP, "proof",
              "Theorems: symmetry of the local operators under exchanging axes, interpolator axis-swap equivariance (R). Solver-level "
              "equivariance within the discretisation tolerance is examined on the implementation.",
